@@ -74,8 +74,9 @@ def topo(outs):
 class Lower:
     """lower DAG nodes into a z3 theory.  mode: 'REAL' (exact reals, libm = uninterpreted functions),
     'UF' (every FP op an uninterpreted function over an uninterpreted sort-like Real carrier), 'FP' (Float64 RNE)."""
-    def __init__(s, mode='REAL'):
+    def __init__(s, mode='REAL', abstract_int=False):
         s.mode = mode; s.memo = {}; s.fn = {}; s.side = []   # side constraints (sqrt/fabs axioms)
+        s.abstract_int = abstract_int    # int->double conversions become free real constants itofp_<id> (sound for identities that hold over the reals)
         s.R = z3.RealSort(); s.FP = z3.Float64(); s.rm = z3.RNE()
         s.usort = z3.DeclareSort('D') if mode == 'UF' else None
     def sort(s): return {'REAL': s.R, 'UF': s.usort, 'FP': s.FP}[s.mode]
@@ -107,6 +108,7 @@ class Lower:
             return z3.If(_cond_tab[f.args[0]], s._a(f.args[1]), s._a(f.args[2]))
         if op in ('sitofp', 'uitofp'):
             bv = _cond_tab[f.args[0]]
+            if m == 'REAL' and s.abstract_int: return z3.Real(f'itofp_{f.args[0]}')
             if m == 'REAL': return z3.ToReal(z3.BV2Int(bv, op == 'sitofp'))
             if m == 'FP': return z3.fpSignedToFP(s.rm, bv, s.FP) if op == 'sitofp' else z3.fpUnsignedToFP(s.rm, bv, s.FP)
             k = ('itofp', f.args[0])
